@@ -82,7 +82,7 @@ def runPure {α : Type} (zl : Inflate) : Prog α → List UInt8 → IOErr → Co
     | b :: rest => runPure zl (k (.ok b)) rest e { c with consumed := c.consumed + 1, steps := c.steps + 1 }
   | readFull n eager k, inp, e, c =>
     let r := readFullResult inp e n
-    let got := inp.length - r.2.length
+    let got := if n ≤ inp.length then n else inp.length      -- bytes consumed by this read
     runPure zl (k r.1) r.2 e
       { consumed := c.consumed + got, steps := c.steps + 1, alloc := c.alloc + readAlloc eager n got }
   | inflate z k, inp, e, c =>
